@@ -396,7 +396,7 @@ impl Prop for C17 {
         match stage {
             0 => {
                 for part in a..b {
-                    out.idx = Some(part);
+                    out.at(part);
                     match part {
                         0 => (i8::MIN..=i8::MAX).for_each(|n| check_int("i8", n, Value::from, false, out)),
                         1 => (u8::MIN..=u8::MAX).for_each(|n| check_int("u8", n, Value::from, false, out)),
@@ -422,7 +422,7 @@ impl Prop for C17 {
             }
             1 => {
                 for part in a..b {
-                    out.idx = Some(part);
+                    out.at(part);
                     match part {
                         0 => float_bits_f64().into_iter().step_by(2).for_each(|x| check_float("f64", x, guarded(|| Ok(Value::from(x))), out)),
                         1 => float_bits_f64().into_iter().skip(1).step_by(2).for_each(|x| check_float("f64", x, guarded(|| Ok(Value::from(x))), out)),
@@ -435,7 +435,7 @@ impl Prop for C17 {
             2 => {
                 let l = integer_lattice();
                 for i in a..b {
-            out.idx = Some(i);
+            out.at(i);
                     let (m, s, neg) = l[i as usize];
                     check_integer(m, s, neg, out);
                 }
